@@ -215,6 +215,7 @@ harnesses! {
     e2n_c07_change_min_ada [native 0] => battery::c07_change_min_ada;
     e2n_c05_change_step [native 0] => battery::c05_change_step;
     e2n_c06_change_fee_widths [native 0] => battery::c06_change_fee_widths;
+    e2n_c06_ref_script_sizes [native 0] => battery::c06_ref_script_sizes;
     e2n_c16_hash_eq [native 0] => battery::c16_hash_eq;
     e2n_c16_ord_eq [native 0] => battery::c16_ord_eq;
     e2n_c08_first_input_fee [native 0] => battery::c08_first_input_fee;
